@@ -87,6 +87,10 @@ pub fn op_text(op: &Op, in_ty: &str) -> String {
             "scan::<{}>(|| 0u8, |acc: &mut u8, (a, b): {KV}| {{ *acc = acc.wrapping_mul(2).wrapping_add(b).wrapping_add(1); Some((a, *acc)) }})",
             p.s()
         ),
+        ScanStop(p) => format!(
+            "scan::<{}>(|| 0u8, |acc: &mut u8, (a, b): {KV}| {{ *acc = acc.wrapping_mul(2).wrapping_add(b).wrapping_add(1); if (a, b) == (1u8, 0u8) {{ None }} else {{ Some((a, *acc)) }} }})",
+            p.s()
+        ),
         DeferTick => "defer_tick()".into(),
         DeferTickLazy => "defer_tick_lazy()".into(),
         LatticeFold(p) => format!("lattice_fold::<{}>(dfir_rs::lattices::Max::<u8>::default)", p.s()),
